@@ -172,6 +172,17 @@ impl CB {
         ensures *final(self) == (CB { byte_classes: yes, ..*old(self) }),
 //@@ end
 
+// the low-level entry point: the NFA of this builder's own options, then the encoder (C04: the
+// contiguous NFA of a pattern list is derived from the noncontiguous NFA of the same list)
+//@@ fn src/nfa/contiguous.rs | pub fn build<I, P>(&self, patterns: I) -> Result<NFA, BuildError> | within=impl Builder | res=r
+//@@ sigsub 1 /pub fn build<I, P>\(&self, patterns: I\) -> Result<NFA, BuildError>/ => fn build(&self, patterns: Pats) -> Result<CNFA, BuildError>
+//@@ sigsub 1 /where\s+I: IntoIterator<Item = P>,\s+P: AsRef<\[u8\]>,/ =>
+//@@ header
+        ensures
+            nn_build_spec(self.noncontiguous, patterns) is Err ==> r is Err,
+            nn_build_spec(self.noncontiguous, patterns) is Ok ==> r == cn_from_spec(*self, nn_build_spec(self.noncontiguous, patterns)->Ok_0),
+//@@ end
+
     // trusted: the encoder
     #[verifier::external_body]
     fn build_from_noncontiguous(&self, nnfa: &NNFA) -> (r: Result<CNFA, BuildError>)
@@ -227,6 +238,16 @@ impl DB {
 //@@ sub 1 /\bself\s*\}\s*\Z/ => }
 //@@ header
         ensures *final(self) == (DB { byte_classes: yes, ..*old(self) }),
+//@@ end
+
+//@@ fn src/dfa.rs | pub fn build<I, P>(&self, patterns: I) -> Result<DFA, BuildError> | within=impl Builder | res=r
+//@@ sigsub 1 /pub fn build<I, P>\(&self, patterns: I\)/ => fn build(&self, patterns: Pats)
+//@@ sigsub 1 /where\s+I: IntoIterator<Item = P>,\s+P: AsRef<\[u8\]>,/ =>
+//@@ header
+        ensures
+            nn_build_spec(self.noncontiguous, patterns) is Err ==> r is Err,
+            nn_build_spec(self.noncontiguous, patterns) is Ok ==> r == dfa_from_spec(*self, nn_build_spec(self.noncontiguous, patterns)->Ok_0),
+            r is Ok ==> dfa_start_kind(r->Ok_0) == self.start_kind,
 //@@ end
 
     // trusted: the determinizer; A-dfa-starts: a DFA supports exactly the anchoring modes of the
